@@ -51,6 +51,11 @@ pub fn lib_cmp(a: &str, b: &str) -> Ordering {
 }
 
 fn check_pair(a: &str, b: &str) -> Result<(), (String, String)> {
+    // rpmvercmp is defined on C strings: a NUL cannot occur inside one (found by fz_vercmp, which
+    // feeds arbitrary bytes - the reference stops at the NUL, the library sees a separator)
+    if a.contains('\0') || b.contains('\0') {
+        return Ok(());
+    }
     let want = vercmp::vercmp(a, b);
     let got = lib_cmp(a, b);
     if got != want {
